@@ -29,6 +29,10 @@ def _returns_underlying_open(ev, ret):
   if not stores:
     return recv == 'self.next_sink'
   j = stores[-1]
+  if recv == 'self.next_sink' and isinstance(v.func.value, ast.Name):
+    binds = [i for i, e in enumerate(ev[:k]) if e.kind == 'stmt' and isinstance(e.node, ast.Assign) and any(isinstance(t, ast.Name) and t.id == v.func.value.id for t in e.node.targets)]
+    if binds and binds[-1] > j:
+      return True       # read back from the attribute after the store
   return recv == resolved_text(ev, j, ev[j].node.value) and recv != 'None'
 
 
